@@ -133,7 +133,7 @@ func GenerateStratum(rng *rand.Rand, stratum string) *uni.Universe {
 			v := uni.Version{Name: p, Version: s, Blocked: rng.Intn(6) == 0}
 			if i == lat {
 				// Mostly alone, sometimes inside a list of other dist-tags.
-				v.Tags = uni.Pick(rng, "latest", "latest", "latest", "current,latest,lts", "latest,lts", "stable,latest")
+				v.Tags = uni.Pick(rng, "latest", "latest", "latest", "current,latest,lts", "latest,lts", "stable,latest", "canary-latest,latest", "latest-rc,next,latest")
 			}
 			if rng.Intn(10) == 0 {
 				if v.Tags != "" {
